@@ -41,7 +41,7 @@ res() { echo "$1" | tee -a "$log"; }
 	else
 	cp "$out/$(basename "$demo")" "$dest"
 	if go test -count=1 "$@" "$pkg" >>"$log" 2>&1; then res "demo_with_change=pass(!)"; else res "demo_with_change=fail"; fi
-	git checkout -- . && git apply -R --check "$out/patch.diff" 2>/dev/null && res "patch still applied?!"
+	git checkout -- . && git clean -fdq -e "$(basename "$dest")" && git apply -R --check "$out/patch.diff" 2>/dev/null && res "patch still applied?!"
 	if go test -count=1 "$@" "$pkg" >>"$log" 2>&1; then res "demo_without_change=pass"; else res "demo_without_change=FAIL"; fi
 	rm -f "$dest"
 	fi
